@@ -145,9 +145,9 @@ func cmdCheck(args []string) {
 	t0 := time.Now()
 	g := mustLoad()
 	keys := g.funcsForProp(*prop)
-	timeout := 30
+	timeout := 40
 	if *tier == "thorough" {
-		timeout = 120
+		timeout = 150
 	}
 	type fres struct {
 		key string
